@@ -119,6 +119,12 @@ func init() {
 		st.assume(ForallPat([]*Term{k}, Implies(in(k), And(in(pi(k)), Eq(Select(Select(nh, sv.Arr), Add(sv.Off, k)), Select(Select(h, sv.Arr), Add(sv.Off, pi(k)))), Eq(ip(pi(k)), k))),
 			[]*Term{Select(Select(nh, sv.Arr), Add(sv.Off, k))}, []*Term{pi(k)}))
 		st.assume(ForallPat([]*Term{k}, Implies(in(k), And(in(ip(k)), Eq(pi(ip(k)), k))), []*Term{ip(k)}))
+		// the same fact keyed by the absolute index, for goals that read the sorted slice at an arbitrary index
+		j := Fresh("k", SInt)
+		rel := Sub(j, sv.Off)
+		st.assume(ForallPat([]*Term{j}, Implies(And(Le(sv.Off, j), Lt(j, Add(sv.Off, sv.Len))),
+			And(in(pi(rel)), Eq(Select(Select(nh, sv.Arr), j), Select(Select(h, sv.Arr), Add(sv.Off, pi(rel)))), Eq(ip(pi(rel)), rel))),
+			[]*Term{Select(Select(nh, sv.Arr), j)}))
 		st.heapSet(cls, nh)
 		// sortedness over the permuted slice
 		qi, qj := Fresh("q_si", SInt), Fresh("q_sj", SInt)
